@@ -17,7 +17,7 @@ RULE = ("(1) for every built-in command of the CSV library set a valid base mode
         "wrong-fuzziness results, bad paths, unknown command, duplicate result); (2) the same faults at random positions of random "
         "models with sinks; (3) every producer x consumer pairing of built-in data commands; (4) unfaulted models must be accepted; "
         "distinct by (fault kind, command, parameter, variant) / (producer, consumer)")
-REQUIRED_COUNTERS = ["valid_models_through_the_tool_by_bare_name", "history_steps_checked", "rejections_checked", "side_effect_free_rejections", "acceptances_checked", "pairings_checked", "exec_events_seen_in_valid_runs", "netcdf_model_cases", "api_built_models", "incremental_rejections_checked", "user_subclass_models", "shared_argument_programs", "valid_models_through_the_tool"]
+REQUIRED_COUNTERS = ["faulty_models_through_the_tool", "valid_models_through_the_tool_by_bare_name", "history_steps_checked", "rejections_checked", "side_effect_free_rejections", "acceptances_checked", "pairings_checked", "exec_events_seen_in_valid_runs", "netcdf_model_cases", "api_built_models", "incremental_rejections_checked", "user_subclass_models", "shared_argument_programs", "valid_models_through_the_tool"]
 ASSUMPTIONS = ["a list or tuple given to a String/Path parameter is don't-care (string cleaning stringifies by design)",
                "value-dependent run-time errors (InvalidThresholds, DuplicateRawValues, ...) are not acceptance errors",
                "the acceptance rule is restated from the declarations (inputs/required/output/is_fuzzy), not from running clean()"]
@@ -255,6 +255,45 @@ def run_history(ctx, case):
                     ctx.fail("history:missing-input-file:side-effect-before-rejection", {"step": step, "states": order, "executed": execs[:6], "fs_writes": writes[:4], "changed_files": changed[:4]})
                     return
                 ctx.count("side_effect_free_rejections")
+        return
+    if case["variant"] == 2 and case["rseed"] % 2 == 0:
+        # the documented way of removing a command (del program.commands[name]) after a successful run, while finished commands
+        # still refer to it: the next run rejects the model - before anything executes
+        from mpilot.program import Program as _P
+        models.write_table(model["table"], d)
+        try:
+            prog = _P.from_source(text, libraries=libs, working_dir=d)
+            prog.run()
+        except Exception as e:
+            ctx.dontcare("history: model raises %s" % type(e).__name__)
+            return
+        referenced = [n_ for n_ in prog.commands if any(n_ in models.deps_of(c_) for c_ in model["commands"])]
+        if not referenced:
+            return
+        victim = referenced[case["rseed"] % len(referenced)]
+        del prog.commands[victim]
+        ctx.count("history_steps_checked")
+        ctx.count("rejections_checked")
+        before = trace.snapshot_dir(d)
+        log = trace.start(watch_dirs=[d])
+        err = None
+        try:
+            trace.attach(prog)
+            prog.run()
+        except Exception as e:
+            err = e
+        finally:
+            trace.stop()
+        execs = [e_["name"] for e_ in log if e_["k"] == "exec_enter"]
+        changed = trace.diff_snapshots(before, trace.snapshot_dir(d))
+        if err is None:
+            ctx.fail("history:referenced-command-removed-after-a-run:accepted", {"removed": victim, "executed": execs[:6], "text": text[:600]})
+        elif type(err).__name__ != "ResultDoesNotExist":
+            ctx.fail("history:referenced-command-removed-after-a-run:rejected-with-%s" % type(err).__name__, {"removed": victim, "error": str(err)[:200]})
+        elif execs or changed:
+            ctx.fail("history:referenced-command-removed-after-a-run:side-effect-before-rejection", {"removed": victim, "executed": execs[:6], "changed_files": changed[:4]})
+        else:
+            ctx.count("side_effect_free_rejections")
         return
     # variant 2: a run fails inside a reader because of the file's content; the file is repaired; the same program is run again
     col = reads[case["rseed"] % len(reads)]["args"]["InFieldName"]
@@ -548,6 +587,26 @@ def run_case(ctx, case):
         bad_attr = _check_attrs(err, exp)
         if bad_attr:
             ctx.fail("%s:error-attribute-%s" % (key, bad_attr[0]), {"expect": exp, "got": bad_attr[1], "error": name})
+    if not api and case.get("rseed", 1) % 6 == 0 and model.get("libs") != "nc":
+        # the same faulty file through the command-line tool: refused (non-zero exit status), and nothing written either
+        from click.testing import CliRunner
+        from mpilot.cli.mpilot import main
+        d3 = ctx.scratch()
+        models.write_table(model["table"], d3)
+        fp3 = os.path.join(d3, "model.mpt")
+        with open(fp3, "w", encoding="utf-8") as fh:
+            fh.write(text)
+        before3 = trace.snapshot_dir(d3)
+        try:
+            res3 = CliRunner(mix_stderr=False).invoke(main, ["eems-csv", fp3])
+        except TypeError:
+            res3 = CliRunner().invoke(main, ["eems-csv", fp3])
+        ctx.count("faulty_models_through_the_tool")
+        changed3 = trace.diff_snapshots(before3, trace.snapshot_dir(d3))
+        if res3.exit_code == 0:
+            ctx.fail("%s:accepted-by-the-command-line-tool" % key, {"expect": exp, "text": text[:800]})
+        elif changed3:
+            ctx.fail("%s:command-line-tool-writes-before-rejecting" % exp["fault"], {"changed_files": changed3[:5], "expect": exp, "text": text[:800]})
     if execs or writes or changed or finished:
         ctx.fail("%s:side-effect-before-rejection" % exp["fault"], {"executed": execs[:8], "fs_writes": writes[:5], "changed_files": changed[:5],
                                                                    "finished": finished[:8], "error": name, "expect": exp, "text": text[:1500]})
